@@ -118,7 +118,14 @@ func TestVerifC12(t *testing.T) {
 			m.Count("random_large")
 		}
 	}
-	o.CasesFile("c12_rq", []string{"Corr.C12"}, "Z * Z * Z * Z", rq, "mismatches_rq")
+	// sharded: one very long list literal overflows coqc's parser stack
+	for i := 0; i*8000 < len(rq); i++ {
+		o.CasesFile(fmt.Sprintf("c12_rq_%02d", i), []string{"Corr.C12"}, "Z * Z * Z * Z", rq[i*8000:min(len(rq), (i+1)*8000)], "mismatches_rq")
+		if all := m.Cases["c12_rq"]; len(all) == len(rq) {
+			m.Cases[fmt.Sprintf("c12_rq_%02d", i)] = all[i*8000 : min(len(rq), (i+1)*8000)]
+		}
+	}
+	delete(m.Cases, "c12_rq")
 	// table 2: (semisync, n, w, p, ok)
 	var ck []string
 	cn, cw := 30, 4
@@ -145,7 +152,13 @@ func TestVerifC12(t *testing.T) {
 			}
 		}
 	}
-	o.CasesFile("c12_check", []string{"Corr.C12"}, "bool * Z * Z * Z * bool", ck, "mismatches_check")
+	for i := 0; i*8000 < len(ck); i++ {
+		o.CasesFile(fmt.Sprintf("c12_check_%02d", i), []string{"Corr.C12"}, "bool * Z * Z * Z * bool", ck[i*8000:min(len(ck), (i+1)*8000)], "mismatches_check")
+		if all := m.Cases["c12_check"]; len(all) == len(ck) {
+			m.Cases[fmt.Sprintf("c12_check_%02d", i)] = all[i*8000 : min(len(ck), (i+1)*8000)]
+		}
+	}
+	delete(m.Cases, "c12_check")
 	m.Exhaustive = true
 	m.DistinctNontrivial = dist.Len()
 	m.Rule = fmt.Sprintf("complete grid n,w in 0..%d for GetRequiredWaitSlaveCount/GetFailoverQuorum and (semi-sync x n<=%d x w<=%d x p<=n+1) for CheckFailoverQuorum through the real SwitchHelper built by NewSwitchHelper; distinct = distinct (required,quorum) result pairs with n>=2,w>=1 plus distinct (mode,verdict,min(p,3)) classes", maxN, cn, cw)
